@@ -554,6 +554,11 @@ def _eq_goals(a, b):
         a, b = sv.as_cx(a), sv.as_cx(b)
         return _eq_goals(a.re, b.re) + _eq_goals(a.im, b.im)
     if sv.is_scalar(a) and sv.is_scalar(b):
+        # both sides in z3's simplified form: syntactic variants of one term (-x / -1*x, argument order) become identical
+        if isinstance(a, SV) and not a.is_bool:
+            a = sv.wrap(z3.simplify(a.t))
+        if isinstance(b, SV) and not b.is_bool:
+            b = sv.wrap(z3.simplify(b.t))
         r = sv.cmp("==", a, b)
         if is_conc(r):
             return [z3.BoolVal(bool(r))]
